@@ -2,6 +2,7 @@
 //@ params uri_path s3
 //@ hideutf8
 //@ props C08 C09 C13 C17
+//@ consumers C01 C02 C15
 //@ ret res
 //@ replace 1 `let uri_path = if s3 {` => `let uri_path_cow = if s3 {`
 //@ replace 1 `uri_path.starts_with('/')` => `str_starts_with_char(uri_path, '/')`
